@@ -355,10 +355,14 @@ func (fd *Client) GetItem(ctx context.Context, input *dynamodb.GetItemInput, opt
 		return nil, &smithy.GenericAPIError{Code: "ValidationException", Message: err.Error()}
 	}
 
-	item := copyItem(mapTypesToDynamoMapItem(table.Data[key]))
+	stored, ok := table.Data[key]
+	if !ok {
+		// no item: DynamoDB answers no Item at all, which is what `out.Item == nil` tests for
+		return &dynamodb.GetItemOutput{}, nil
+	}
 
 	output := &dynamodb.GetItemOutput{
-		Item: item,
+		Item: copyItem(mapTypesToDynamoMapItem(stored)),
 	}
 
 	return output, nil
